@@ -989,6 +989,13 @@ def move_imports_to_toplevel(source: str) -> str:
             node for node in toplevel_imports if node.lineno > first_def_lineno
         )
 
+    # An import in a try statement is there because it may fail, and has a fallback
+    imports_movable_to_toplevel -= {
+        node
+        for try_node in core.walk(root, ast.Try)
+        for node in core.walk(try_node, (ast.Import, ast.ImportFrom))
+    }
+
     for i, node in enumerate(root.body):
         if i > 0 and not isinstance(node, (ast.Import, ast.ImportFrom)):
             lineno = min(x.lineno for x in core.walk(node, ast.AST(lineno=int))) - 1
